@@ -53,7 +53,7 @@ _CFG = [(COMM, "CommHandler", f) for f in ("_channel_enable", "_channel_div", "_
        [(NX, "NxscopeHandler", f) for f in ("channels_default_cfg", "ch_enable", "ch_disable", "ch_disable_all", "ch_divider",
                                             "channels_write")] + \
        [(DEV, "Device", f) for f in ("en_channels_update", "div_channels_update")]
-_LIFE = [(COMM, "CommHandler", f) for f in ("_start", "_stop", "connect", "disconnect", "_drop_all", "_drop_all_frames",
+_LIFE = [(COMM, "CommHandler", f) for f in ("__init__", "_start", "_stop", "connect", "disconnect", "_drop_all", "_drop_all_frames",
                                              "_devinfo_get", "_nxslib_cmninfo", "_nxslib_chinfo", "stream_start", "stream_stop",
                                              "_get_stream_frame")] + \
         [(NX, "NxscopeHandler", f) for f in ("__init__", "_stream_start", "_stream_stop", "connect", "disconnect", "stream_start",
@@ -96,7 +96,7 @@ PINS = {
                                                               "_nxslib_channels_div", "_channel_enable", "_channel_div",
                                                               "ch_disable_all", "stream_data")] +
            [(NX, "NxscopeHandler", f) for f in ("ch_disable_all", "channels_write", "_stream_thread")],
-    "C11": _CFG + [(COMM, "CommHandler", "stream_start"), (COMM, "CommHandler", "stream_stop")],
+    "C11": _LIFE + _CFG,
     "C12": _CFG + _FAN,
     "C13": _THREAD,
     "C14": _DUMMY + _RECV,
